@@ -720,6 +720,184 @@ static void runTeardownBatch(uint64_t seed, uint64_t idx, vfnet::Pki &pki)
   tgt.reset();
 }
 
+
+// ------------------------------------------------------------------------------ reused-descriptor batch
+// Schedule family "event collected for a descriptor that has been closed and handed out again":
+//   caller 1 : connectSync(LATE, T1) — LATE is a listen(fd,0) socket with a full accept queue, so the SYN is
+//              dropped; the call times out and queues Close(A) while the I/O thread sits in a slow onData of
+//              an unrelated session; the harness then empties LATE's queue, so A's handshake completes on the
+//              SYN retransmit (about 1 s) and A's descriptor has a writability event pending;
+//   callers 2: connectSync(BLACK HOLE, T2) queue Connect(B..) behind Close(A);
+//   release  : the slow callback returns; one epoll_wait() hands out [eventfd, A's descriptor]; the command
+//              batch closes A's descriptor and the first Connect gets the same number back, towards a target
+//              that never answers. Whatever the engine does with the stale event, the black hole never
+//              accepts: any ok(sid) for it is a violation (same rule as every black-hole batch).
+// One batch costs 2.5-3.5 s of wall time: the Python side runs a handful in their own processes, in parallel
+// with the rest of the tier.
+struct LateListener
+{
+  int fd = -1; uint16_t port = 0; int filler = -1; std::vector<int> accepted; bool verified = false;
+  LateListener()
+  {
+    fd = vfnet::bindLoopback(SOCK_STREAM, port);
+    ::listen(fd, 0);
+    filler = vfnet::connectNonblock(port);
+    vf::sleepMs(5);
+    int probe = vfnet::connectNonblock(port);
+    pollfd p{probe, POLLOUT, 0};
+    verified = ::poll(&p, 1, 40) == 0; // still SYN_SENT: further SYNs are being dropped
+    ::close(probe);
+    vfnet::setNonblock(fd);
+  }
+  size_t drain() { for (;;) { int c = ::accept4(fd, nullptr, nullptr, SOCK_NONBLOCK | SOCK_CLOEXEC); if (c < 0) break; accepted.push_back(c); } return accepted.size(); }
+  // connections (other than the filler) that the client side has not closed yet
+  size_t stillOpen()
+  {
+    size_t open = 0;
+    for (size_t i = 1; i < accepted.size(); i++)
+    {
+      char b[64];
+      ssize_t n = ::recv(accepted[i], b, sizeof b, MSG_DONTWAIT);
+      if (n < 0 && (errno == EAGAIN || errno == EWOULDBLOCK)) open++;
+    }
+    return open;
+  }
+  ~LateListener() { for (int c : accepted) ::close(c); if (filler >= 0) ::close(filler); if (fd >= 0) ::close(fd); }
+};
+
+static void runReusedFdBatch(uint64_t seed, uint64_t idx)
+{
+  auto &O = vf::out();
+  vf::Rng rng(seed, idx ^ 0x5eedfd5ull);
+  const char *scn = "reused-fd-blackhole";
+  g_curScn = scn;
+  O.line("{\"t\":\"begin\",\"idx\":" + std::to_string(idx) + ",\"scn\":\"" + scn + "\"}");
+  uint32_t T1 = uint32_t(rng.range(350, 750));             // caller 1: expires before the SYN retransmit
+  uint32_t holdAtMs = uint32_t(rng.range(80, 200));        // the unrelated session's slow callback begins
+  uint32_t openAtMs = uint32_t(rng.range(780, 880));       // LATE's accept queue is emptied (after caller 1 gave up)
+  uint32_t afterLateMs = uint32_t(rng.range(20, 250));     // slow callback returns this long after A completed
+  int nB = int(rng.range(1, 3));
+  uint32_t T2 = uint32_t(rng.range(1300, 1700));
+  vfnet::Target tgtS(TK::Accept, nullptr, seed + idx);
+  vfnet::Target bh(TK::Blackhole, nullptr, seed + idx + 1);
+  LateListener late;
+  if (!bh.blackholeVerified() || !late.verified) { O.obs("reused_fd_setup_failed"); return; }
+  auto st = std::make_shared<BatchState>();
+  auto holdFlag = std::make_shared<std::atomic<bool>>(false);
+  auto t = Transport::tcp(TransportConfig{});
+  t->onConnect([st](SessionId sid, const TransportAddress &) { std::lock_guard<std::mutex> g(st->m); st->evs.push_back({0, sid, vf::nowNs(), 0, ""}); });
+  t->onClose([st](SessionId sid, const TransportErrorInfo &r) { std::lock_guard<std::mutex> g(st->m); st->evs.push_back({1, sid, vf::nowNs(), int(r.code), r.message}); });
+  t->onData([st, holdFlag](SessionId sid, iora::core::BufferView, std::chrono::steady_clock::time_point) {
+    if (sid != st->holdSid.load()) return;
+    st->holds++;
+    uint64_t until = vf::nowNs() + 4000000000ull;
+    while (holdFlag->load() && vf::nowNs() < until) vf::sleepMs(0.5); // a busy user handler
+  });
+  if (!t->start().isOk()) { O.inconclusive("transport start failed"); return; }
+  auto rs = t->connectSync("127.0.0.1", tgtS.port(), TlsMode::None, std::chrono::milliseconds(5000));
+  if (!rs.isOk()) { O.inconclusive("reused-fd: holder session failed"); t->stop(); return; }
+  SessionId S = rs.value();
+  st->holdSid = S;
+  std::vector<CallRec> recs(size_t(1 + nB));
+  std::vector<std::unique_ptr<CallReg>> regs;
+  for (int i = 0; i < 1 + nB; i++) regs.emplace_back(new CallReg());
+  { std::lock_guard<std::mutex> g(g_regsM); g_regs = &regs; }
+  auto call = [&](int ci, uint16_t port, uint32_t ms) {
+    CallRec &c = recs[size_t(ci)];
+    c.caller = ci; c.timeoutMs = ms;
+    auto &reg = *regs[size_t(ci)];
+    reg.timeoutMs = ms; reg.api = 0; reg.since = vf::nowNs(); reg.active = 1;
+    c.t0 = vf::nowNs();
+    try
+    {
+      auto r = t->connectSync("127.0.0.1", port, TlsMode::None, std::chrono::milliseconds(ms));
+      c.t1 = vf::nowNs();
+      if (r.isOk()) { c.ok = true; c.sid = r.value(); c.lport = t->getLocalAddress(c.sid).port; }
+      else { c.code = int(r.error().code); c.msg = r.error().message; }
+    }
+    catch (const std::exception &ex) { c.t1 = vf::nowNs(); c.threw = true; c.msg = ex.what(); }
+    reg.active = 0;
+  };
+  auto sleepUntil = [](uint64_t ns) { while (vf::nowNs() < ns) vf::sleepMs(0.5); };
+  uint64_t t0 = vf::nowNs();
+  std::thread c1([&] { call(0, late.port, T1); });
+  sleepUntil(t0 + uint64_t(holdAtMs) * 1000000ull);
+  *holdFlag = true;
+  t->send(S, "h", 1);
+  { uint64_t until = vf::nowNs() + 300000000ull; while (st->holds.load() == 0 && vf::nowNs() < until) vf::sleepMs(0.5); }
+  bool held = st->holds.load() > 0;
+  c1.join(); // about t0 + T1: Close(A) is queued, the I/O thread is still in the handler
+  vf::sleepMs(double(rng.range(20, 70)));
+  std::vector<std::thread> c2;
+  for (int i = 0; i < nB; i++) c2.emplace_back([&, i] { call(1 + i, bh.port(), T2); });
+  sleepUntil(t0 + uint64_t(openAtMs) * 1000000ull);
+  late.drain(); // the filler leaves the queue: the next SYN retransmit of A is answered
+  bool lateDone = false;
+  { uint64_t until = t0 + 2200000000ull; while (vf::nowNs() < until) { if (late.drain() >= 2) { lateDone = true; break; } vf::sleepMs(1); } }
+  uint64_t lateAt = vf::nowNs();
+  vf::sleepMs(double(afterLateMs));
+  *holdFlag = false; // the handler returns: epoll_wait() now reports the eventfd and A's descriptor together
+  for (auto &x : c2) x.join();
+  { std::lock_guard<std::mutex> g(g_regsM); g_regs = nullptr; }
+
+  O.obs("reused_fd_batches");
+  if (held) O.obs("reused_fd_io_thread_held_in_slow_onData");
+  if (lateDone) { O.obs("reused_fd_abandoned_handshake_completed_late_at_peer"); O.obsMax("reused_fd_late_completion_ms_after_call", (lateAt - t0) / 1000000ull); }
+  const CallRec &a = recs[0];
+  if (!a.ok && a.code == int(TransportError::Timeout)) O.obs("reused_fd_caller1_timed_out_with_connect_pending");
+  if (held && lateDone && !a.ok && a.code == int(TransportError::Timeout)) O.obs("reused_fd_schedule_preconditions_met");
+  for (size_t i = 0; i < recs.size(); i++)
+  {
+    const CallRec &c = recs[i];
+    std::string rc = c.threw ? "exception" : c.ok ? "ok" : errName(c.code);
+    O.obs(std::string("reused_fd_") + (i == 0 ? "late_target_result_" : "blackhole_result_") + rc);
+    O.obs("calls"); O.obs(std::string("calls_") + scn);
+    if (c.threw) O.viol(std::string("C04:exception:") + scn, "connectSync threw: " + c.msg, callJson(scn, c));
+    if (i > 0)
+    {
+      if (c.ok)
+        O.viol(std::string("C04:ok-for-failing-target:") + scn,
+               "connectSync returned ok(sid) for a black hole (listen backlog full, no SYN is ever answered): the session never completed a TCP handshake",
+               "{\"call\":" + callJson(scn, c) + ",\"black_hole_accepted\":" + std::to_string(bh.accepted()) + ",\"caller1_timeout_ms\":" + std::to_string(T1) +
+                 ",\"late_completion_ms\":" + std::to_string((lateAt - t0) / 1000000ull) + ",\"handler_returned_ms_after_that\":" + std::to_string(afterLateMs) + "}");
+      else if (c.code != int(TransportError::Timeout))
+        O.viol(std::string("C04:unexpected-error:") + scn + ":" + errName(c.code), "connectSync to a black hole returned an error a black hole cannot produce", callJson(scn, c));
+      double el = double(c.t1 - c.t0) / 1e6;
+      if (el > double(c.timeoutMs) + 500.0 + 0.5 * double(c.timeoutMs) && g_hb->maxGapNs(c.t0, c.t1) < kStarveNs)
+        suspect(idx, std::string("C04:late-return:") + scn + ":connectSync", "connectSync returned later than timeout + slack although only ANOTHER session's handler was slow", callJson(scn, c));
+    }
+    char sg[96];
+    snprintf(sg, sizeof sg, "%s|%zu|%s|%d|%d", scn, i ? size_t(1) : size_t(0), rc.c_str(), lateDone ? 1 : 0, nB);
+    O.caseSig(vf::fnv(sg));
+    O.sample(callJson(scn, c));
+  }
+  // quiesce: everything that was handed out gets closed, nothing may stay open at the late target
+  for (auto &c : recs) if (c.ok) t->close(c.sid);
+  t->close(S);
+  ioBarrier(*t);
+  {
+    uint64_t until = vf::nowNs() + 10000000000ull; size_t open = 0;
+    for (;;) { late.drain(); open = late.stillOpen(); if (!open || vf::nowNs() > until) break; vf::sleepMs(2); }
+    if (open) suspect(idx, std::string("C04:connection-left-behind:") + scn, "the abandoned attempt that completed late is still open at the peer 10 s after the client went idle", "{\"open\":" + std::to_string(open) + "}");
+    else O.obs("batches_peer_saw_everything_closed");
+  }
+  {
+    std::set<uint64_t> okIds; okIds.insert(S);
+    for (auto &c : recs) if (c.ok) okIds.insert(c.sid);
+    std::lock_guard<std::mutex> g(st->m);
+    for (auto &e : st->evs)
+    {
+      if (e.kind == 0) O.viol("C04:global-onConnect:id-never-returned", "global onConnect fired for a session id that no connect()/successful connectSync returned", "{\"target\":\"reused-fd-blackhole\",\"sid\":" + std::to_string(e.sid) + "}");
+      else if (e.kind == 1 && !okIds.count(e.sid))
+        O.viol("C04:global-onClose:id-never-returned:" + std::string(scn) + ":" + reasonClass(e.code, e.msg), "global onClose fired for a session id that connectSync never handed to its caller", "{\"sid\":" + std::to_string(e.sid) + ",\"reason\":" + vf::jstr(e.msg.substr(0, 100)) + "}");
+      else if (e.kind == 1) O.obs("global_onClose_for_handed_out_id");
+    }
+  }
+  O.obs("batches");
+  t->stop();
+  t.reset();
+}
+
 int main(int argc, char **argv)
 {
   vf::Args A(argc, argv);
@@ -728,6 +906,7 @@ int main(int argc, char **argv)
   g_isolated = A.u("isolated", 0) != 0;
   int onlyScn = A.has("scn") ? int(A.u("scn", 0)) : -1;
   std::string tmp = A.s("tmp", "/tmp");
+  std::string mode = A.s("mode", "batch");
   vfnet::Pki pki;
   pki.generate(tmp);
   g_progressNs = vf::nowNs();
@@ -772,6 +951,7 @@ int main(int argc, char **argv)
   {
     g_curIdx = int64_t(i);
     g_progressNs = vf::nowNs();
+    if (mode == "reusedfd") { runReusedFdBatch(seed, i); continue; }
     vf::Rng kindPick(seed, i * 2654435761ull + 17);
     if (onlyScn == 99 || (onlyScn < 0 && kindPick.chance(0.12))) runTeardownBatch(seed, i, pki);
     else runBatch(seed, i, pki, onlyScn);
